@@ -19,7 +19,7 @@
     correspondence run evaluates on every generated history). *)
 From Coq Require Import List String Bool Arith NArith Relations.
 From Verif Require Import Caco.Load Caco.LoadProofs Caco.Build Caco.BuildProofs Caco.BuildGen Gen.CacoBuild.
-From Verif Require Import Caco.BuildSession Caco.BuildSessionProofs Caco.BuildSessionGen.
+From Verif Require Import Caco.LoadSessionGen Caco.BuildSession Caco.BuildSessionProofs Caco.BuildParse Caco.BuildSessionGen.
 Import ListNotations.
 Local Open Scope string_scope.
 
@@ -233,7 +233,8 @@ Print Assumptions C10_builder_shape_frozen.
     [env.nodeType]/[env.ruleType] at the context of the call first. *)
 Theorem C10_memo_is_made_per_build :
   memo_policy_of_source = MemoPerBuild /\ memo_site_per_buildb = true /\
-  long_lived_state_frozenb = true /\ loader_per_loadb = true /\ env_hooks_per_buildb = true.
+  long_lived_state_frozenb = true /\ loader_per_loadb = true /\ env_hooks_per_buildb = true /\
+  env_writes_frozenb = true.
 Proof. exact gen_memo_made_per_build. Qed.
 Print Assumptions C10_memo_is_made_per_build.
 
@@ -357,6 +358,65 @@ Theorem C10_kept_memo_failed_treated_as_built_refuted :
   r3 = BFail (FInclude "pkg/bun").
 Proof. exact kept_memo_failed_treated_as_built_refuted. Qed.
 Print Assumptions C10_kept_memo_failed_treated_as_built_refuted.
+
+(** ** The parse of the BUILD files is per Build call (Caco/BuildParse.v)
+
+    [newFileSet] expands Select patterns while a BUILD file is read, so what
+    a read yields depends on the source tree at that moment.  [run] expands at
+    every build against the current sources; that is the model of the code
+    because every Build call reads the BUILD files - decided on the current
+    source: the loader and its [read] table are made per [loadNodes] call,
+    [readBuildFile] (both of them) have the frozen text, and nothing but the
+    workspace memo and the per-call hooks is ever written on the Builder's
+    [env], whose fields are the frozen ones. *)
+Theorem C10_parse_is_per_build : parse_policy_of_source = ParsePerBuild.
+Proof. exact gen_parse_policy_per_build. Qed.
+Print Assumptions C10_parse_is_per_build.
+
+(** a Build whose patterns are expanded against the current sources is [build_with] *)
+Theorem C10_build_parsed_current : forall always ts w,
+  build_parsed (map fst (w_src w)) always ts w = build_with always ts w.
+Proof. exact build_parsed_current. Qed.
+Print Assumptions C10_build_parsed_current.
+
+(** With the parse policy of the current source a history on one long-lived
+    Builder goes through the worlds of [run] and executes what its builds
+    execute. *)
+Theorem C10_one_builder_parse_eq_run : forall h s,
+  p_world (fst (prun parse_policy_of_source h s)) = run h (p_world s) /\
+  snd (prun parse_policy_of_source h s) = btrace h (p_world s).
+Proof. exact source_prun_per_build. Qed.
+Print Assumptions C10_one_builder_parse_eq_run.
+
+(** Parsed BUILD files kept on the Builder while the files themselves are
+    unchanged: a file added to a selected directory is not listed and nothing
+    executes (a clean build lists it) ... *)
+Theorem C10_kept_parse_added_file_refuted :
+  let h := [OBuild ["p1/b"]; OSetSrc "p0/n.go" (Some (mkStat 10 1030 420 ""))] in
+  let s := fst (prun ParseKept h (mkP (empty_world kp_rules kp_src) None)) in
+  let '(s1, e1, r1) := pbuild ParseKept false ["p1/b"] s in
+  let '(w2, e2, r2) := build_with false ["p1/b"] (clean (p_world s)) in
+  let '(s3, e3, r3) := pbuild ParsePerBuild false ["p1/b"] s in
+  r1 = BOk /\ e1 = [] /\ r2 = BOk /\ e2 = ["p0/a"; "p1/b"] /\ r3 = BOk /\ e3 = ["p0/a"; "p1/b"] /\
+  content_at (w_out (p_world s1)) "p0/a.fileset" =
+    Some (CList [ESrc "p0/m.go" (mkStat 10 1002 420 ""); ESrc "p0/x.txt" (mkStat 4 1001 420 "")]) /\
+  content_at (w_out w2) "p0/a.fileset" =
+    Some (CList [ESrc "p0/m.go" (mkStat 10 1002 420 ""); ESrc "p0/n.go" (mkStat 10 1030 420 "");
+                 ESrc "p0/x.txt" (mkStat 4 1001 420 "")]) /\
+  content_at (w_out (p_world s3)) "p0/a.fileset" = content_at (w_out w2) "p0/a.fileset".
+Proof. exact kept_parse_added_file_refuted. Qed.
+Print Assumptions C10_kept_parse_added_file_refuted.
+
+(** ... and a file removed from it fails the build that a clean build passes. *)
+Theorem C10_kept_parse_removed_file_refuted :
+  let src := ("p0/n.go", mkStat 10 1030 420 "") :: kp_src in
+  let h := [OBuild ["p1/b"]; OSetSrc "p0/n.go" None] in
+  let s := fst (prun ParseKept h (mkP (empty_world kp_rules src) None)) in
+  let '(s1, e1, r1) := pbuild ParseKept false ["p1/b"] s in
+  let '(w2, e2, r2) := build_with false ["p1/b"] (clean (p_world s)) in
+  r1 = BLoadErr [EStat "p0/n.go"] /\ r2 = BOk /\ e2 = ["p0/a"; "p1/b"].
+Proof. exact kept_parse_removed_file_refuted. Qed.
+Print Assumptions C10_kept_parse_removed_file_refuted.
 
 (** ** Non-vacuity: a concrete workspace and history. *)
 Local Open Scope N_scope.
